@@ -112,7 +112,15 @@ func NewGCSObject(b *GCSBucket, name string) ObjectHandle {
 }
 
 func (o *GCSObject) NewReader(ctx context.Context) (io.ReadCloser, error) {
-	return o.ObjectHandle.NewReader(ctx)
+	r, err := o.ObjectHandle.NewReader(ctx)
+	if errors.Is(err, storage.ErrObjectNotExist) {
+		// Callers test for this package's sentinel, as with FSObject.
+		return nil, ErrObjectNotExist
+	}
+	if err != nil {
+		return nil, err
+	}
+	return r, nil
 }
 
 func (o *GCSObject) NewWriter(ctx context.Context) (io.WriteCloser, error) {
